@@ -52,6 +52,14 @@ Proof.
   - exfalso. apply Hx. rewrite <- Hf. now apply in_map.
 Qed.
 
+Lemma NoDup_app_snoc {A} (l : list A) x : NoDup l -> ~ In x l -> NoDup (l ++ [x]).
+Proof.
+  induction l as [|y l IH]; intros Hn Hx; cbn [app]; [constructor; [intros []|constructor]|].
+  inversion Hn as [|? ? Hy Hl]; subst. constructor.
+  - intros H. apply in_app_or in H as [H|[H|[]]]; [auto | subst; apply Hx; now left].
+  - apply IH; [exact Hl|]. intros H. apply Hx. now right.
+Qed.
+
 Lemma find_ext_in {A} (f g : A -> bool) l : (forall x, In x l -> f x = g x) -> find f l = find g l.
 Proof.
   induction l as [|x l IH]; intros H; [reflexivity|]. cbn [find]. rewrite (H x (or_introl eq_refl)).
@@ -99,4 +107,411 @@ Proof.
     + intros i Hi. unfold types_in_params in Hi. cbn [flat_map fst snd] in Hi. apply in_app_or in Hi as [Hi|Hi]; [|now apply IHt].
       apply filter_In in Hi as [Hi _]. destruct (ident_in_texpr te o) as [j|] eqn:E; [|contradiction].
       destruct Hi as [<-|[]]. apply is_type_in_shift. eapply denotes_ident; eauto.
+Qed.
+
+Lemma wf_vars_facts Gi pn L vs L' : wf_vars Gi pn L vs L' ->
+  map fst L' = map fst L ++ map id_val (var_names_in_vars all vs)
+  /\ (NoDup (map fst L) -> NoDup (map fst L'))
+  /\ forall i, In i (types_in_vars all vs) -> is_type_in Gi i.
+Proof.
+  induction 1 as [L | L doc name te o inf off t r L' Hd Hfresh _ [IHk [IHn IHt]]].
+  - split; [now rewrite app_nil_r|]. split; [auto | intros i []].
+  - split; [|split].
+    + rewrite IHk, keys_snoc. unfold var_names_in_vars. cbn [flat_map fst snd all app map]. rewrite id_val_shift, <- app_assoc. reflexivity.
+    + intros Hn. apply IHn. rewrite keys_snoc. apply NoDup_app_snoc; [exact Hn|]. now apply lookup_none_keys.
+    + intros i Hi. unfold types_in_vars in Hi. cbn [flat_map fst snd] in Hi. apply in_app_or in Hi as [Hi|Hi]; [|now apply IHt].
+      apply filter_In in Hi as [Hi _]. destruct (ident_in_texpr te o) as [j|] eqn:E; [|contradiction].
+      destruct Hi as [<-|[]]. apply is_type_in_shift. eapply denotes_ident; eauto.
+Qed.
+
+(* ---------------------------------------------------------------------------------------- *)
+(* T: statements                                                                             *)
+
+Lemma names_shift (P : text -> Prop) (l : list ident) off :
+  (forall i, In i l -> P (id_val i)) -> forall i, In i (shift_idents l off) -> P (id_val i).
+Proof. intros H i Hi. apply in_shift in Hi as [j [-> Hj]]. rewrite id_val_shift. auto. Qed.
+
+Section Bodies.
+Variables (L : ltable) (G : gtable).
+
+Definition is_local (x : text) : Prop := lookup L x <> None.
+Definition is_callee (x : text) : Prop := lookup L x = None /\ exists pe, lookup G x = Some (GProcE pe).
+
+Lemma typing_names :
+  (forall v t, var_type L G v t -> forall i, In i (vars_in_variable all v) -> is_local (id_val i)) /\
+  (forall e t, expr_type L G e t -> forall i, In i (vars_in_expr all e) -> is_local (id_val i)).
+Proof.
+  apply typing_mutind.
+  - intros i e ve t Hb Hv _ j [<-|[]]. destruct (binds_var_local _ _ _ _ _ Hb Hv) as [le [Hl _]]. unfold is_local. congruence.
+  - intros a e off inf sz b c _ IHa _ IHe i H. cbn [vars_in_variable] in H. apply in_app_or in H as [H|H]; [auto|].
+    revert i H. apply names_shift. exact IHe.
+  - intros i j [].
+  - intros v t _ IH. exact IH.
+  - intros op l r inf _ _ IHl _ IHr i H. cbn [vars_in_expr] in H. apply in_app_or in H as [H|H]; auto.
+  - intros op l r inf _ _ IHl _ IHr i H. cbn [vars_in_expr] in H. apply in_app_or in H as [H|H]; auto.
+  - intros op a inf _ IH. exact IH.
+  - intros a inf t _ IH. exact IH.
+Qed.
+
+Lemma args_names args ps : Forall2 (arg_ok L G) args ps ->
+  forall i, In i (flat_map (fun a => shift_idents (vars_in_expr all (fst a)) (snd a)) args) -> is_local (id_val i).
+Proof.
+  induction 1 as [|[a o] p args ps Ha _ IH]; [intros i []|]. intros i H. cbn [flat_map fst snd] in H.
+  apply in_app_or in H as [H|H]; [|auto]. inversion Ha; subst. revert i H. apply names_shift.
+  eapply (proj2 typing_names); eauto.
+Qed.
+
+Lemma wt_names :
+  (forall s, wt_stmt L G s ->
+     (forall i, In i (vars_in_stmt all s) -> is_local (id_val i)) /\ (forall i, In i (procs_in_stmt all s) -> is_callee (id_val i))) /\
+  (forall l, wt_stmts L G l ->
+     (forall i, In i (vars_in_stmts all l) -> is_local (id_val i)) /\ (forall i, In i (procs_in_stmts all l) -> is_callee (id_val i))).
+Proof.
+  destruct typing_names as [Tv Te].
+  apply wt_mutind.
+  - intros inf. split; intros i [].
+  - intros v e o inf Hv He. split; [|intros i []]. intros i H. cbn [vars_in_stmt vars_in_oexpr] in H.
+    apply in_app_or in H as [H|H]; [eapply Tv; eauto|]. revert i H. apply names_shift. eapply Te; eauto.
+  - intros name args inf pe Hb Ha. split.
+    + cbn [vars_in_stmt]. eapply args_names; eauto.
+    + intros i [<-|[]]. inversion Hb as [le Hl He | ge Hl Hg He]; [destruct le; discriminate He|].
+      split; [exact Hl|]. destruct ge; [discriminate|]. injection He as ->. eauto.
+  - intros c oc t ot inf Hc _ [IHv IHp]. split; intros i H; cbn [vars_in_stmt procs_in_stmt vars_in_oexpr] in H.
+    + rewrite app_nil_r in H. apply in_app_or in H as [H|H]; revert i H; apply names_shift; [eapply Te; eauto | exact IHv].
+    + rewrite app_nil_r in H. revert i H. apply names_shift. exact IHp.
+  - intros c oc t ot e oe inf Hc _ [IHtv IHtp] _ [IHev IHep]. split; intros i H; cbn [vars_in_stmt procs_in_stmt vars_in_oexpr] in H.
+    + apply in_app_or in H as [H|H]; [revert i H; apply names_shift; eapply Te; eauto|].
+      apply in_app_or in H as [H|H]; revert i H; apply names_shift; assumption.
+    + apply in_app_or in H as [H|H]; revert i H; apply names_shift; assumption.
+  - intros c oc b ob inf Hc _ [IHv IHp]. split; intros i H; cbn [vars_in_stmt procs_in_stmt vars_in_oexpr] in H.
+    + apply in_app_or in H as [H|H]; revert i H; apply names_shift; [eapply Te; eauto | exact IHv].
+    + revert i H. apply names_shift. exact IHp.
+  - intros body inf _ [IHv IHp]. cbn [vars_in_stmt procs_in_stmt].
+    rewrite (block_go (vars_in_stmt all) shift_idents), (block_go (procs_in_stmt all) shift_idents). split; assumption.
+  - split; intros i [].
+  - intros s o r _ [IHsv IHsp] _ [IHrv IHrp]. unfold vars_in_stmts, procs_in_stmts in *. cbn [flat_map fst snd].
+    split; intros i H; apply in_app_or in H as [H|H]; auto; revert i H; apply names_shift; assumption.
+Qed.
+End Bodies.
+
+(* ---------------------------------------------------------------------------------------- *)
+(* T: the global declarations                                                                 *)
+
+Definition gname (g : gdecl) : option text := option_map id_val (gdecl_name g).
+
+Definition kind_match (g : gdecl) (v : gentry) : Prop :=
+  match g, v with GType _, GTypeE _ | GProc _, GProcE _ => True | _, _ => False end.
+
+Lemma wf_gdecl_name G off g ke : wf_gdecl G off g ke -> gname g = Some (fst ke) /\ kind_match g (snd ke).
+Proof. intros [d name te o t Hn _ _ _ _ | d name L1 ps L2 Hn _ _ _]; unfold gname; cbn [gdecl_name fst snd kind_match]; rewrite Hn; (split; [reflexivity | exact I]). Qed.
+
+Lemma wf_gdecls_in' : forall G0 ds es, wf_gdecls G0 ds es ->
+  forall g off, In (g, off) ds ->
+  exists Gi ke, wf_gdecl Gi off g ke /\ lookup (G0 ++ es) (fst ke) = Some (snd ke)
+                /\ (forall x v, lookup Gi x = Some v -> lookup (G0 ++ es) x = Some v)
+                /\ (forall x v, lookup G0 x = Some v -> lookup Gi x = Some v).
+Proof.
+  induction 1 as [G | G d off [k e] r es Hd _ IH]; intros g o Hin; [contradiction|].
+  destruct (wf_gdecl_fresh _ _ _ _ Hd) as [Hf _]. cbn [fst] in Hf.
+  assert (Heq : G ++ (k, e) :: es = (G ++ [(k, e)]) ++ es) by (now rewrite <- app_assoc).
+  destruct Hin as [Hin|Hin].
+  - injection Hin as <- <-. exists G, (k, e). split; [exact Hd|]. cbn [fst snd]. repeat split.
+    + rewrite Heq. apply lookup_app_l. now rewrite lookup_app, Hf, text_eqb_refl.
+    + intros x v E. now apply lookup_app_l.
+    + auto.
+  - destruct (IH _ _ Hin) as [Gi [ke [H1 [H2 [H3 H4]]]]]. exists Gi, ke. rewrite Heq. repeat split; try assumption.
+    intros x v E. apply H4. now apply lookup_app_l.
+Qed.
+
+(* a name is declared once *)
+Lemma wf_gdecls_unique : forall G0 ds es, wf_gdecls G0 ds es ->
+  forall d1 d2, In d1 ds -> In d2 ds -> gname (fst d1) = gname (fst d2) -> d1 = d2.
+Proof.
+  induction 1 as [G | G d off [k e] r es Hd Hr IH]; intros d1 d2 H1 H2 Hn; [contradiction|].
+  destruct (wf_gdecl_name _ _ _ _ Hd) as [Hk _]. cbn [fst] in Hk.
+  assert (Htail : forall d', In d' r -> gname (fst d') <> Some k).
+  { intros [g' o'] Hin E. destruct (wf_gdecls_in' _ _ _ Hr _ _ Hin) as [Gi [ke [Hw [_ [_ Hsub]]]]].
+    destruct (wf_gdecl_name _ _ _ _ Hw) as [Hk' _]. cbn [fst] in E. rewrite Hk' in E. injection E as E.
+    destruct (wf_gdecl_fresh _ _ _ _ Hw) as [Hf _]. rewrite E in Hf.
+    destruct (wf_gdecl_fresh _ _ _ _ Hd) as [Hf0 _]. cbn [fst] in Hf0.
+    rewrite (Hsub k e) in Hf; [discriminate|]. now rewrite lookup_app, Hf0, text_eqb_refl. }
+  destruct H1 as [<-|H1], H2 as [<-|H2]; auto.
+  - exfalso. apply (Htail _ H2). cbn [fst] in Hn. now rewrite <- Hn.
+  - exfalso. apply (Htail _ H1). cbn [fst] in Hn. now rewrite Hn.
+Qed.
+
+(* an entry of the table is initial or made from a declaration of its kind *)
+Lemma wf_gdecls_conv : forall G0 ds es, wf_gdecls G0 ds es -> forall x v,
+  lookup (G0 ++ es) x = Some v ->
+  lookup G0 x = Some v \/ exists g off, In (g, off) ds /\ gname g = Some x /\ kind_match g v.
+Proof.
+  induction 1 as [G | G d off [k e] r es Hd _ IH]; intros x v H.
+  - rewrite app_nil_r in H. now left.
+  - rewrite (app_assoc G [(k, e)] es : G ++ (k, e) :: es = (G ++ [(k, e)]) ++ es) in H.
+    destruct (IH _ _ H) as [H1 | [g [o [Hin [Hn Hk]]]]].
+    + rewrite lookup_app in H1. destruct (lookup G x) as [v'|] eqn:E; [left; exact H1|].
+      destruct (text_eqb k x) eqn:Ek; [|discriminate]. injection H1 as <-. apply text_eqb_eq in Ek. subst x.
+      right. exists d, off. destruct (wf_gdecl_name _ _ _ _ Hd) as [Hn Hk]. split; [now left|]. split; assumption.
+    + right. exists g, o. split; [now right|]. split; assumption.
+Qed.
+
+Definition type_facts (G : gtable) (td : typedecl) : Prop :=
+  exists name te, td_name td = Some name /\ lookup G (id_val name) = Some (GTypeE te) /\ ten_name te = name
+    /\ lookup initialized (id_val name) = None
+    /\ forall te0 o i, td_ty td = Some (te0, o) -> ident_in_texpr te0 o = Some i -> is_type_in G i.
+
+Definition proc_facts (G : gtable) (pd : procdecl) (off : nat) : Prop :=
+  exists name pe, pd_name pd = Some name /\ lookup G (id_val name) = Some (GProcE pe) /\ pe_name pe = name
+    /\ lookup initialized (id_val name) = None
+    /\ (forall i, In i (types_in_params all (pd_params pd)) \/ In i (types_in_vars all (pd_vars pd)) -> is_type_in G i)
+    /\ map fst (pe_local pe) = map id_val (var_names_in_params all (pd_params pd) ++ var_names_in_vars all (pd_vars pd))
+    /\ NoDup (map fst (pe_local pe))
+    /\ (forall i, In i (vars_in_stmts all (pd_stmts pd)) -> is_local (pe_local pe) (id_val i))
+    /\ (forall i, In i (procs_in_stmts all (pd_stmts pd)) -> is_callee (pe_local pe) G (id_val i)).
+
+Definition decl_facts (G : gtable) (d : gdecl * nat) : Prop :=
+  match fst d with
+  | GType td => type_facts G td
+  | GProc pd => proc_facts G pd (snd d)
+  | GError _ => False
+  end.
+
+Lemma is_type_in_ext (Gi G : gtable) i :
+  (forall x v, lookup Gi x = Some v -> lookup G x = Some v) -> is_type_in Gi i -> is_type_in G i.
+Proof. intros H [te E]. exists te. auto. Qed.
+
+Theorem well_typed_facts pr G : well_typed pr G -> forall d, In d (pg_decls pr) -> decl_facts G d.
+Proof.
+  intros [[es [Hwf [HG _]]] Hbodies] [g off] Hin. subst G.
+  destruct (wf_gdecls_in' _ _ _ Hwf _ _ Hin) as [Gi [ke [Hw [Hl [Hsub Hsup]]]]].
+  destruct (wf_gdecl_fresh _ _ _ _ Hw) as [Hf _].
+  assert (Hinit : lookup initialized (fst ke) = None).
+  { destruct (lookup initialized (fst ke)) as [v|] eqn:E; [|reflexivity]. rewrite (Hsup _ _ E) in Hf. discriminate. }
+  unfold decl_facts. cbn [fst snd].
+  inversion Hw as [d0 name te o t Hname _ _ Hty Hden | d0 name L1 pes L2 Hname _ Hpar Hvar]; subst; cbn [fst snd] in *.
+  - exists name. eexists. repeat split; try eassumption; try reflexivity.
+    intros te0 o0 i E Hi. rewrite Hty in E. injection E as <- <-. apply (is_type_in_ext Gi); [exact Hsub|].
+    eapply denotes_ident; eauto.
+  - destruct (wf_params_facts _ _ _ _ _ _ Hpar) as [Pk [Pn Pt]]. destruct (wf_vars_facts _ _ _ _ _ Hvar) as [Vk [Vn Vt]].
+    unfold wt_bodies in Hbodies. rewrite Forall_forall in Hbodies. destruct (Hbodies _ Hin) as [_ Hwb].
+    unfold wt_body in Hwb. cbn [fst snd] in Hwb.
+    match type of Hl with lookup _ _ = Some (GProcE ?pe0) => set (pe := pe0) in * end.
+    assert (Hoe : own_entry (initialized ++ es) d0 off pe) by (exists name; repeat split; assumption).
+    destruct (proj2 (wt_names (pe_local pe) (initialized ++ es)) _ (Hwb pe Hoe)) as [Bv Bp].
+    exists name, pe. repeat split; try assumption; try reflexivity.
+    + intros i [Hi|Hi]; apply (is_type_in_ext Gi); auto.
+    + cbn [pe pe_local]. rewrite Vk, Pk. cbn [map app]. now rewrite map_app.
+    + cbn [pe pe_local]. apply Vn, Pn. constructor.
+    + now apply Bp.
+    + now apply Bp.
+Qed.
+
+(* the names of the global declarations determine them *)
+Theorem well_typed_unique pr G : well_typed pr G ->
+  forall d1 d2, In d1 (pg_decls pr) -> In d2 (pg_decls pr) -> gname (fst d1) = gname (fst d2) -> d1 = d2.
+Proof. intros [[es [Hwf _]] _]. eapply wf_gdecls_unique; eauto. Qed.
+
+Theorem well_typed_conv pr G : well_typed pr G -> forall x v, lookup G x = Some v ->
+  lookup initialized x = Some v \/ exists g off, In (g, off) (pg_decls pr) /\ gname g = Some x /\ kind_match g v.
+Proof. intros [[es [Hwf [-> _]]] _]. eapply wf_gdecls_conv; eauto. Qed.
+
+(* ---------------------------------------------------------------------------------------- *)
+(* predefined entries                                                                        *)
+
+Lemma initialized_default n ge : lookup initialized n = Some ge -> is_default (entry_of_g ge) = true.
+Proof.
+  intros H. apply lookup_In in H. unfold initialized in H.
+  repeat (destruct H as [H|H]; [injection H as _ <-; reflexivity|]). contradiction.
+Qed.
+
+Lemma default_initialized n : existsb (text_eqb n) default_entries = true -> lookup initialized n <> None.
+Proof.
+  intros H. apply existsb_exists in H as [x [Hx He]]. apply text_eqb_eq in He. subst x.
+  unfold default_entries in Hx. cbn [map] in Hx.
+  repeat (destruct Hx as [<-|Hx]; [vm_compute; discriminate|]). contradiction.
+Qed.
+
+(* ---------------------------------------------------------------------------------------- *)
+(* K: keys                                                                                   *)
+
+Definition key_R (o : occ) (r : role) : bool := rclass_eqb (cls r) (cls (o_role o)).
+Definition key_Q (o : occ) : option text -> bool :=
+  match cls (o_role o) with CLocal => fun p => opt_text_eqb p (o_proc o) | _ => any_proc end.
+(* x has the key of o: the same class of role, the same name and - in the local class - the same procedure *)
+Definition samekey (x o : occ) : bool := sel (key_R o) (named (o_name o)) (key_Q o) x.
+
+Lemma rclass_eqb_eq a b : rclass_eqb a b = true <-> a = b.
+Proof. destruct a, b; cbn; split; congruence. Qed.
+
+Lemma opt_text_eqb_eq a b : opt_text_eqb a b = true <-> a = b.
+Proof.
+  destruct a as [a|], b as [b|]; cbn [opt_text_eqb]; try (split; congruence).
+  rewrite text_eqb_eq. split; congruence.
+Qed.
+
+Lemma samekey_spec x o : samekey x o = true <->
+  cls (o_role x) = cls (o_role o) /\ o_name x = o_name o /\ (cls (o_role o) = CLocal -> o_proc x = o_proc o).
+Proof.
+  unfold samekey, sel, key_R, key_Q, named. rewrite !andb_true_iff, rclass_eqb_eq, text_eqb_eq. unfold o_name.
+  destruct (cls (o_role o)); unfold any_proc; rewrite ?opt_text_eqb_eq; intuition congruence.
+Qed.
+
+Lemma samekey_refl x : samekey x x = true.
+Proof. apply samekey_spec. auto. Qed.
+
+Lemma samekey_right x o : samekey x o = true -> forall y, samekey y x = samekey y o.
+Proof.
+  intros H y. apply samekey_spec in H as [H1 [H2 H3]]. unfold samekey, sel, key_R, key_Q. rewrite H1, H2.
+  destruct (cls (o_role o)); try reflexivity. now rewrite H3.
+Qed.
+
+Definition declof (occs : list occ) (x : occ) : option occ :=
+  find (fun y => is_decl (o_role y) && samekey y x) occs.
+Definition dtok (occs : list occ) (x : occ) : option nat := option_map o_tok (binding occs x).
+
+Lemma same_entity_dtok occs x o :
+  same_entity occs x o =
+  match dtok occs x, dtok occs o with
+  | Some a, Some b => Nat.eqb a b
+  | None, None => text_eqb (o_name x) (o_name o)
+  | _, _ => false
+  end.
+Proof. unfold same_entity, dtok. destruct (binding occs x), (binding occs o); reflexivity. Qed.
+
+(* the declaring occurrences of a tree *)
+Lemma name_occ_type td D i : td_name td = Some i ->
+  exists a, In a (occs_of_decl (GType td, D)) /\ o_id a = shift_ident i D /\ o_role a = RTypeDecl.
+Proof. intros H. unfold occs_of_decl. cbn [fst snd]. rewrite H. eexists. split; [left; reflexivity|]. split; reflexivity. Qed.
+
+Lemma name_occ_proc pd D i : pd_name pd = Some i ->
+  exists a, In a (occs_of_decl (GProc pd, D)) /\ o_id a = shift_ident i D /\ o_role a = RProcDecl.
+Proof. intros H. unfold occs_of_decl. cbn [fst snd]. rewrite H. eexists. split; [left; reflexivity|]. split; reflexivity. Qed.
+
+Lemma param_occ_of_name D p ps i : In i (var_names_in_params all ps) ->
+  exists a, In a (param_occs D p ps) /\ o_id a = shift_ident i D /\ o_role a = RParamDecl /\ o_proc a = p.
+Proof.
+  unfold var_names_in_params, param_occs. intros H. apply in_flat_map in H as [[pd o] [Hx H]]. cbn [fst snd] in H.
+  destruct pd as [doc rf [j|] ty inf | inf]; try contradiction. destruct H as [<-|[]].
+  eexists. split; [apply in_flat_map; exists (PValid doc rf (Some j) ty inf, o); split; [exact Hx | left; reflexivity]|].
+  repeat split.
+Qed.
+
+Lemma var_occ_of_name D p vs i : In i (var_names_in_vars all vs) ->
+  exists a, In a (var_occs D p vs) /\ o_id a = shift_ident i D /\ o_role a = RVarDecl /\ o_proc a = p.
+Proof.
+  unfold var_names_in_vars, var_occs. intros H. apply in_flat_map in H as [[vd o] [Hx H]]. cbn [fst snd] in H.
+  destruct vd as [doc [j|] ty inf | inf]; try contradiction. destruct H as [<-|[]].
+  eexists. split; [apply in_flat_map; exists (VValid doc (Some j) ty inf, o); split; [exact Hx | left; reflexivity]|].
+  repeat split.
+Qed.
+
+Lemma local_occ_of_name pd D i :
+  In i (var_names_in_params all (pd_params pd) ++ var_names_in_vars all (pd_vars pd)) ->
+  exists a, In a (occs_of_decl (GProc pd, D)) /\ o_id a = shift_ident i D /\ is_decl (o_role a) = true
+            /\ cls (o_role a) = CLocal /\ o_proc a = option_map id_val (pd_name pd).
+Proof.
+  intros H. unfold occs_of_decl. cbn [fst snd]. apply in_app_or in H as [H|H].
+  - destruct (param_occ_of_name D (option_map id_val (pd_name pd)) _ _ H) as [a [Ha [Hi [Hr Hp]]]]. exists a.
+    split; [apply in_or_app; right; apply in_or_app; left; exact Ha|]. rewrite Hr. repeat split; assumption.
+  - destruct (var_occ_of_name D (option_map id_val (pd_name pd)) _ _ H) as [a [Ha [Hi [Hr Hp]]]]. exists a.
+    split; [do 3 (apply in_or_app; right); apply in_or_app; left; exact Ha|]. rewrite Hr. repeat split; assumption.
+Qed.
+
+Section Keys.
+Variables (pr : program) (G : gtable).
+Hypothesis Hwt : well_typed pr G.
+Notation occs := (occurrences pr).
+
+Lemma occ_decl x : In x occs -> exists g D, In (g, D) (pg_decls pr) /\ In x (occs_of_decl (g, D)).
+Proof. unfold occurrences. intros H. apply in_flat_map in H as [[g D] [H1 H2]]. eauto. Qed.
+
+Lemma in_occs g D x : In (g, D) (pg_decls pr) -> In x (occs_of_decl (g, D)) -> In x occs.
+Proof. intros H1 H2. unfold occurrences. apply in_flat_map. eauto. Qed.
+
+Lemma o_name_shift x i D : o_id x = shift_ident i D -> o_name x = id_val i.
+Proof. unfold o_name. now intros ->. Qed.
+
+Lemma local_key pd pe i :
+  map fst (pe_local pe) = map id_val (var_names_in_params all (pd_params pd) ++ var_names_in_vars all (pd_vars pd)) ->
+  In i (var_names_in_params all (pd_params pd)) \/ In i (var_names_in_vars all (pd_vars pd)) ->
+  lookup (pe_local pe) (id_val i) <> None.
+Proof. intros Hk Hi. apply lookup_some_keys. rewrite Hk. apply in_map, in_or_app. exact Hi. Qed.
+
+(* what the tables say about the name of an occurrence *)
+Theorem occ_table x : In x occs ->
+  match cls (o_role x) with
+  | CType => exists te, lookup G (o_name x) = Some (GTypeE te)
+  | CProc => exists pe, lookup G (o_name x) = Some (GProcE pe)
+  | CLocal => exists pn pe, o_proc x = Some pn /\ lookup G pn = Some (GProcE pe) /\ lookup (pe_local pe) (o_name x) <> None
+  end
+  /\ (o_role x = RCall ->
+      exists pn pe, o_proc x = Some pn /\ lookup G pn = Some (GProcE pe) /\ lookup (pe_local pe) (o_name x) = None)
+  /\ (is_decl (o_role x) = true -> cls (o_role x) <> CLocal -> lookup initialized (o_name x) = None).
+Proof.
+  intros Hx. destruct (occ_decl x Hx) as [g [D [Hg Ho]]]. pose proof (well_typed_facts pr G Hwt _ Hg) as Hf.
+  unfold decl_facts in Hf. cbn [fst snd] in Hf. destruct g as [td|pd|inf]; [| |contradiction].
+  - destruct Hf as [name [te [Hn [Hl [Hten [Hinit Huse]]]]]].
+    apply link_decl_type in Ho as [Hp [i Hr Hi Hid | i te0 toff Hr Ht Hi Hid _]]; rewrite Hr, (o_name_shift _ _ _ Hid); cbn [cls is_decl].
+    + rewrite Hn in Hi. injection Hi as <-. split; [eauto|]. split; [discriminate | auto].
+    + split; [exact (Huse _ _ _ Ht Hi)|]. split; discriminate.
+  - destruct Hf as [name [pe [Hn [Hl [Hpn [Hinit [Hty [Hk [Hnd [Hv Hc]]]]]]]]]].
+    apply link_decl_proc in Ho as [Hp [i Hr Hi Hid | i Hr Hi Hid _ | i Hr Hi Hid _ | i Hr Hi Hid _ | i Hr Hi Hid _ | i Hr Hi Hid _ | i Hr Hi Hid _]];
+      rewrite Hr, (o_name_shift _ _ _ Hid); cbn [cls is_decl]; rewrite Hn in Hp; cbn [option_map] in Hp.
+    + rewrite Hn in Hi. injection Hi as <-. split; [eauto|]. split; [discriminate | auto].
+    + split; [|split; [discriminate | intros _ H; now contradiction H]].
+      exists (id_val name), pe. repeat split; try assumption. eapply local_key; eauto.
+    + split; [apply Hty; now left|]. split; discriminate.
+    + split; [|split; [discriminate | intros _ H; now contradiction H]].
+      exists (id_val name), pe. repeat split; try assumption. eapply local_key; eauto.
+    + split; [apply Hty; now right|]. split; discriminate.
+    + destruct (Hc _ Hi) as [Hnone [pe' Hl']]. split; [eauto|]. split; [|discriminate].
+      intros _. exists (id_val name), pe. repeat split; assumption.
+    + split; [|split; discriminate]. exists (id_val name), pe. repeat split; try assumption. exact (Hv _ Hi).
+Qed.
+
+(* declaring occurrences with the same key carry the same identifier node *)
+Theorem decl_unique a b :
+  In a occs -> In b occs -> is_decl (o_role a) = true -> is_decl (o_role b) = true -> samekey a b = true -> o_id a = o_id b.
+Proof.
+  intros Ha Hb Hda Hdb Hk. apply samekey_spec in Hk as [Hc [Hnm Hp]].
+  destruct (occ_decl a Ha) as [ga [Da [Hga Hoa]]]. destruct (occ_decl b Hb) as [gb [Db [Hgb Hob]]].
+  pose proof (well_typed_facts pr G Hwt _ Hga) as Hfa. pose proof (well_typed_facts pr G Hwt _ Hgb) as Hfb.
+  unfold decl_facts in Hfa, Hfb. cbn [fst snd] in Hfa, Hfb.
+  assert (Hsame : gname ga = gname gb -> ga = gb /\ Da = Db).
+  { intros E. pose proof (well_typed_unique pr G Hwt _ _ Hga Hgb E) as Heq. injection Heq as -> ->. auto. }
+  destruct ga as [tda|pda|inf]; [| |contradiction]; destruct gb as [tdb|pdb|inf]; try contradiction.
+  - (* two type declarations *)
+    apply link_decl_type in Hoa as [_ [ia Hra Hia Hida | ia ? ? Hra _ _ _ _]]; [|rewrite Hra in Hda; discriminate].
+    apply link_decl_type in Hob as [_ [ib Hrb Hib Hidb | ib ? ? Hrb _ _ _ _]]; [|rewrite Hrb in Hdb; discriminate].
+    rewrite (o_name_shift _ _ _ Hida), (o_name_shift _ _ _ Hidb) in Hnm.
+    destruct Hsame as [E1 E2]; [unfold gname; cbn [gdecl_name]; rewrite Hia, Hib; cbn [option_map]; now rewrite Hnm|].
+    injection E1 as ->. subst Db. rewrite Hia in Hib. injection Hib as <-. now rewrite Hida, Hidb.
+  - (* a type and a procedure declaration: different classes *)
+    apply link_decl_type in Hoa as [_ [ia Hra Hia Hida | ia ? ? Hra _ _ _ _]]; [|rewrite Hra in Hda; discriminate].
+    apply link_decl_proc in Hob as [_ [i Hr _ _ | i Hr _ _ _ | i Hr _ _ _ | i Hr _ _ _ | i Hr _ _ _ | i Hr _ _ _ | i Hr _ _ _]];
+      rewrite Hra, Hr in *; try discriminate.
+  - apply link_decl_type in Hob as [_ [ib Hrb Hib Hidb | ib ? ? Hrb _ _ _ _]]; [|rewrite Hrb in Hdb; discriminate].
+    apply link_decl_proc in Hoa as [_ [i Hr _ _ | i Hr _ _ _ | i Hr _ _ _ | i Hr _ _ _ | i Hr _ _ _ | i Hr _ _ _ | i Hr _ _ _]];
+      rewrite Hrb, Hr in *; try discriminate.
+  - (* two procedure declarations *)
+    destruct Hfa as [na [pea [Hna [_ [_ [_ [_ [Hka [Hnda _]]]]]]]]]. destruct Hfb as [nb [peb [Hnb _]]].
+    apply link_decl_proc in Hoa as [Hpa Hoa]. apply link_decl_proc in Hob as [Hpb Hob].
+    assert (Hloc : forall ia ib, In ia (var_names_in_params all (pd_params pda) ++ var_names_in_vars all (pd_vars pda)) ->
+                     In ib (var_names_in_params all (pd_params pdb) ++ var_names_in_vars all (pd_vars pdb)) ->
+                     o_id a = shift_ident ia Da -> o_id b = shift_ident ib Db -> cls (o_role b) = CLocal -> o_id a = o_id b).
+    { intros ia ib Hia Hib Hida Hidb Hcl. specialize (Hp Hcl). rewrite Hpa, Hpb in Hp.
+      destruct Hsame as [E1 E2]; [exact Hp|]. injection E1 as ->. subst Db.
+      rewrite (o_name_shift _ _ _ Hida), (o_name_shift _ _ _ Hidb) in Hnm. rewrite Hka, map_map in Hnda || rewrite Hka in Hnda.
+      rewrite (NoDup_map_inj id_val _ ia ib Hnda Hia Hib Hnm) in Hida. now rewrite Hida, Hidb. }
+    destruct Hoa as [ia Hra Hia Hida | ia Hra Hia Hida _ | ia Hra _ _ _ | ia Hra Hia Hida _ | ia Hra _ _ _ | ia Hra _ _ _ | ia Hra _ _ _];
+      rewrite Hra in Hda, Hc; try discriminate Hda;
+      destruct Hob as [ib Hrb Hib Hidb | ib Hrb Hib Hidb _ | ib Hrb _ _ _ | ib Hrb Hib Hidb _ | ib Hrb _ _ _ | ib Hrb _ _ _ | ib Hrb _ _ _];
+      rewrite Hrb in Hdb, Hc; try discriminate Hdb; try discriminate Hc.
+    + rewrite (o_name_shift _ _ _ Hida), (o_name_shift _ _ _ Hidb) in Hnm.
+      destruct Hsame as [E1 E2]; [unfold gname; cbn [gdecl_name]; rewrite Hia, Hib; cbn [option_map]; now rewrite Hnm|].
+      injection E1 as ->. subst Db. rewrite Hia in Hib. injection Hib as <-. now rewrite Hida, Hidb.
+    + apply (Hloc ia ib); auto; [apply in_or_app; now left | apply in_or_app; now left | now rewrite Hrb].
+    + apply (Hloc ia ib); auto; [apply in_or_app; now left | apply in_or_app; now right | now rewrite Hrb].
+    + apply (Hloc ia ib); auto; [apply in_or_app; now right | apply in_or_app; now left | now rewrite Hrb].
+    + apply (Hloc ia ib); auto; [apply in_or_app; now right | apply in_or_app; now right | now rewrite Hrb].
 Qed.
